@@ -80,12 +80,14 @@ EX = [
     ('exc_multiline_msg', ">>> raise ValueError(T({k}, 'l1\\nl2'))"),
     # IGNORE_EXCEPTION_DETAIL with an exception class that lives two modules deep
     ('ied_nested', ">>> import json\n>>> json.loads(T({k}, '{{')) # doctest: +IGNORE_EXCEPTION_DETAIL"),
+    ('dir_space_skip', ">>> print(T({k}, 'zz')) # doctest: +SKIP +ELLIPSIS"),
+    ('mlit_blankcont', ">>> print([T({k}, 1),\n...     \n...  2])"),
     ('skipd_nowant', ">>> T({k}, 'zz') # doctest: +SKIP"),
     ('exc_note', ">>> e{k} = ValueError(T({k}, 'm'))\n>>> e{k}.add_note('a note')\n>>> raise e{k}"),
     ('exc_syntax', ">>> compile(T({k}, '1 +'), 's', 'eval')"),
 ]
 EXD = dict(EX)
-SPECIAL_WANT = {'ied_nested': 'Traceback (most recent call last):\nJSONDecodeError: whatever',
+SPECIAL_WANT = {'dir_space_skip': 'nope', 'ied_nested': 'Traceback (most recent call last):\nJSONDecodeError: whatever',
                 'dir_comma': '[0, ..., 19] a b', 'dir_space': '[0, ..., 19] a b', 'ell': '[0, 1, ..., 19]', 'skipd': 'nope', 'nws': 'a b',
                 'ied': 'Traceback (most recent call last):\nValueError: other',
                 'raise_stack': 'Traceback (most recent call last):\n  File "<stdin>", line 1, in <module>\nKeyError: \'kk\''}
